@@ -333,6 +333,52 @@ fn with_post(written: &[u8], post: &[u8]) -> Vec<u8> {
     v
 }
 
+/// a `Read` source that hands out one octet per call (a socket, `chain`, a chunked reader): every
+/// read below is done on the contiguous slice AND on this source; the answers must be the same
+struct Drip<'a> {
+    data: &'a [u8],
+    pos: usize,
+}
+
+impl<'a> std::io::Read for Drip<'a> {
+    fn read(&mut self, buf: &mut [u8]) -> std::io::Result<usize> {
+        if buf.is_empty() || self.pos >= self.data.len() {
+            return Ok(0);
+        }
+        buf[0] = self.data[self.pos];
+        self.pos += 1;
+        Ok(1)
+    }
+}
+
+/// `on_both!(bytes, |src| <read from src>, |result, consumed| <answer>)`
+macro_rules! on_both {
+    ($bytes:expr, |$src:ident| $body:expr, $fmt:expr) => {{
+        let bytes: &[u8] = $bytes;
+        let a = {
+            let mut s: &[u8] = bytes;
+            let r = {
+                let $src = &mut s;
+                $body
+            };
+            ($fmt)(r, bytes.len() - s.len())
+        };
+        let b = {
+            let mut d = Drip { data: bytes, pos: 0 };
+            let r = {
+                let $src = &mut d;
+                $body
+            };
+            ($fmt)(r, d.pos)
+        };
+        if a == b {
+            a
+        } else {
+            format!("chunked-differs [{}] [{}]", a, b)
+        }
+    }};
+}
+
 fn rt_answer<V: Display>(written: &[u8], r: Result<V, Error>, consumed: usize) -> String {
     match r {
         Ok(v) => format!("ok {} {} {}", hex(written), v, consumed),
@@ -447,21 +493,25 @@ fn rt_number<T: Number + Display, C: numbers::Constraint<T>>(v: T, post: &[u8]) 
     Integer::<T, C>::write_value(&mut w, &v).expect("write to Vec");
     let written = w.into_inner();
     let all = with_post(&written, post);
-    let mut src: &[u8] = &all[..];
-    let r = {
-        let mut rd = BasicReader::from(&mut src);
-        Integer::<T, C>::read_value(&mut rd)
-    };
-    rt_answer(&written, r, all.len() - src.len())
+    on_both!(
+        &all[..],
+        |src| {
+            let mut rd = BasicReader::from(src);
+            Integer::<T, C>::read_value(&mut rd)
+        },
+        |r, n| rt_answer(&written, r, n)
+    )
 }
 
 fn rd_number<T: Number + Display, C: numbers::Constraint<T>>(bytes: &[u8]) -> String {
-    let mut src: &[u8] = bytes;
-    let r = {
-        let mut rd = BasicReader::from(&mut src);
-        Integer::<T, C>::read_value(&mut rd)
-    };
-    rd_answer(r, bytes.len() - src.len())
+    on_both!(
+        bytes,
+        |src| {
+            let mut rd = BasicReader::from(src);
+            Integer::<T, C>::read_value(&mut rd)
+        },
+        |r, n| rd_answer(r, n)
+    )
 }
 
 fn rt_boolean<C: boolean::Constraint>(v: bool, post: &[u8]) -> String {
@@ -469,21 +519,25 @@ fn rt_boolean<C: boolean::Constraint>(v: bool, post: &[u8]) -> String {
     Boolean::<C>::write_value(&mut w, &v).expect("write to Vec");
     let written = w.into_inner();
     let all = with_post(&written, post);
-    let mut src: &[u8] = &all[..];
-    let r = {
-        let mut rd = BasicReader::from(&mut src);
-        Boolean::<C>::read_value(&mut rd)
-    };
-    rt_answer(&written, r.map(b01), all.len() - src.len())
+    on_both!(
+        &all[..],
+        |src| {
+            let mut rd = BasicReader::from(src);
+            Boolean::<C>::read_value(&mut rd)
+        },
+        |r: Result<bool, Error>, n| rt_answer(&written, r.map(b01), n)
+    )
 }
 
 fn rd_boolean<C: boolean::Constraint>(bytes: &[u8]) -> String {
-    let mut src: &[u8] = bytes;
-    let r = {
-        let mut rd = BasicReader::from(&mut src);
-        Boolean::<C>::read_value(&mut rd)
-    };
-    rd_answer(r.map(b01), bytes.len() - src.len())
+    on_both!(
+        bytes,
+        |src| {
+            let mut rd = BasicReader::from(src);
+            Boolean::<C>::read_value(&mut rd)
+        },
+        |r: Result<bool, Error>, n| rd_answer(r.map(b01), n)
+    )
 }
 
 fn rt_enum<E: enumerated::Constraint>(index: u64, post: &[u8]) -> Option<String> {
@@ -492,27 +546,24 @@ fn rt_enum<E: enumerated::Constraint>(index: u64, post: &[u8]) -> Option<String>
     Enumerated::<E>::write_value(&mut w, &value).expect("write to Vec");
     let written = w.into_inner();
     let all = with_post(&written, post);
-    let mut src: &[u8] = &all[..];
-    let r = {
-        let mut rd = BasicReader::from(&mut src);
-        Enumerated::<E>::read_value(&mut rd)
-    };
-    Some(rt_answer(
-        &written,
-        r.map(|e| e.to_choice_index()),
-        all.len() - src.len(),
+    Some(on_both!(
+        &all[..],
+        |src| {
+            let mut rd = BasicReader::from(src);
+            Enumerated::<E>::read_value(&mut rd)
+        },
+        |r: Result<E, Error>, n| rt_answer(&written, r.map(|e| e.to_choice_index()), n)
     ))
 }
 
 fn rd_enum<E: enumerated::Constraint>(bytes: &[u8]) -> Option<String> {
-    let mut src: &[u8] = bytes;
-    let r = {
-        let mut rd = BasicReader::from(&mut src);
-        Enumerated::<E>::read_value(&mut rd)
-    };
-    Some(rd_answer(
-        r.map(|e| e.to_choice_index()),
-        bytes.len() - src.len(),
+    Some(on_both!(
+        bytes,
+        |src| {
+            let mut rd = BasicReader::from(src);
+            Enumerated::<E>::read_value(&mut rd)
+        },
+        |r: Result<E, Error>, n| rd_answer(r.map(|e| e.to_choice_index()), n)
     ))
 }
 
@@ -525,15 +576,11 @@ pub fn handle(args: &[&str]) -> Option<String> {
             let mut written = Vec::new();
             written.write_length(n).expect("write to Vec");
             let all = with_post(&written, &post);
-            let mut src: &[u8] = &all[..];
-            let r = src.read_length();
-            Some(rt_answer(&written, r, all.len() - src.len()))
+            Some(on_both!(&all[..], |src| src.read_length(), |r, n| rt_answer(&written, r, n)))
         }
         ["rlen", h] => {
             let bytes = unhex(h)?;
-            let mut src: &[u8] = &bytes[..];
-            let r = src.read_length();
-            Some(rd_answer(r, bytes.len() - src.len()))
+            Some(on_both!(&bytes[..], |src| src.read_length(), |r, n| rd_answer(r, n)))
         }
         // ---- identifier
         ["id", k, n, post] => {
@@ -542,15 +589,11 @@ pub fn handle(args: &[&str]) -> Option<String> {
             let mut written = Vec::new();
             written.write_identifier(tag).expect("write to Vec");
             let all = with_post(&written, &post);
-            let mut src: &[u8] = &all[..];
-            let r = src.read_identifier();
-            Some(rt_answer(&written, r.map(class_str), all.len() - src.len()))
+            Some(on_both!(&all[..], |src| src.read_identifier(), |r: Result<Tag, Error>, n| rt_answer(&written, r.map(class_str), n)))
         }
         ["rid", h] => {
             let bytes = unhex(h)?;
-            let mut src: &[u8] = &bytes[..];
-            let r = src.read_identifier();
-            Some(rd_answer(r.map(class_str), bytes.len() - src.len()))
+            Some(on_both!(&bytes[..], |src| src.read_identifier(), |r: Result<Tag, Error>, n| rd_answer(r.map(class_str), n)))
         }
         // ---- primitive boolean octet
         ["bool", v, post] => {
@@ -559,15 +602,11 @@ pub fn handle(args: &[&str]) -> Option<String> {
             let mut written = Vec::new();
             BasicWrite::write_boolean(&mut written, v).expect("write to Vec");
             let all = with_post(&written, &post);
-            let mut src: &[u8] = &all[..];
-            let r = BasicRead::read_boolean(&mut src);
-            Some(rt_answer(&written, r.map(b01), all.len() - src.len()))
+            Some(on_both!(&all[..], |src| BasicRead::read_boolean(src), |r: Result<bool, Error>, n| rt_answer(&written, r.map(b01), n)))
         }
         ["rbool", h] => {
             let bytes = unhex(h)?;
-            let mut src: &[u8] = &bytes[..];
-            let r = BasicRead::read_boolean(&mut src);
-            Some(rd_answer(r.map(b01), bytes.len() - src.len()))
+            Some(on_both!(&bytes[..], |src| BasicRead::read_boolean(src), |r: Result<bool, Error>, n| rd_answer(r.map(b01), n)))
         }
         // ---- integer content octets; read back with the number of bytes the writer emitted
         ["i64", v, post] => {
@@ -576,9 +615,7 @@ pub fn handle(args: &[&str]) -> Option<String> {
             let mut written = Vec::new();
             written.write_integer_i64(v).expect("write to Vec");
             let all = with_post(&written, &post);
-            let mut src: &[u8] = &all[..];
-            let r = src.read_integer_i64(written.len() as u32);
-            Some(rt_answer(&written, r, all.len() - src.len()))
+            Some(on_both!(&all[..], |src| src.read_integer_i64(written.len() as u32), |r, n| rt_answer(&written, r, n)))
         }
         ["u64", v, post] => {
             let v: u64 = v.parse().ok()?;
@@ -586,23 +623,17 @@ pub fn handle(args: &[&str]) -> Option<String> {
             let mut written = Vec::new();
             written.write_integer_u64(v).expect("write to Vec");
             let all = with_post(&written, &post);
-            let mut src: &[u8] = &all[..];
-            let r = src.read_integer_u64(written.len() as u32);
-            Some(rt_answer(&written, r, all.len() - src.len()))
+            Some(on_both!(&all[..], |src| src.read_integer_u64(written.len() as u32), |r, n| rt_answer(&written, r, n)))
         }
         ["ri64", byte_len, h] => {
             let byte_len: u32 = byte_len.parse().ok()?;
             let bytes = unhex(h)?;
-            let mut src: &[u8] = &bytes[..];
-            let r = src.read_integer_i64(byte_len);
-            Some(rd_answer(r, bytes.len() - src.len()))
+            Some(on_both!(&bytes[..], |src| src.read_integer_i64(byte_len), |r, n| rd_answer(r, n)))
         }
         ["ru64", byte_len, h] => {
             let byte_len: u32 = byte_len.parse().ok()?;
             let bytes = unhex(h)?;
-            let mut src: &[u8] = &bytes[..];
-            let r = src.read_integer_u64(byte_len);
-            Some(rd_answer(r, bytes.len() - src.len()))
+            Some(on_both!(&bytes[..], |src| src.read_integer_u64(byte_len), |r, n| rd_answer(r, n)))
         }
         // ---- BasicWriter / BasicReader: INTEGER of any of the eight Rust types under a tag
         ["number", ty, k, n, v, post] => {
